@@ -703,7 +703,7 @@ impl<'a> Gen<'a> {
                 if self.r.chance(0.5) {
                     h[self.r.below(32)] ^= 1 << self.r.below(8);
                 }
-                for w in essential_types::convert::word_4_from_u8_32(h) {
+                for w in crate::model::word_4_from_u8_32(h) {
                     self.emit(push(w));
                 }
                 self.emit(PEX);
@@ -725,7 +725,7 @@ impl<'a> Gen<'a> {
         let post = self.r.chance(0.5);
         if ext {
             let c = if self.r.chance(0.5) { crate::vmgen::contract_a() } else { crate::vmgen::contract_b() };
-            for w in essential_types::convert::word_4_from_u8_32(c.0) {
+            for w in crate::model::word_4_from_u8_32(c.0) {
                 self.emit(push(w));
             }
         }
@@ -798,10 +798,10 @@ impl<'a> Gen<'a> {
                     self.emit(push(Word::from_be_bytes(c.try_into().unwrap())));
                 }
                 self.emit(push(len as Word));
-                for w in essential_types::convert::word_8_from_u8_64(sig) {
+                for w in crate::model::word_8_from_u8_64(sig) {
                     self.emit(push(w));
                 }
-                for w in essential_types::convert::word_4_from_u8_32(key) {
+                for w in crate::model::word_4_from_u8_32(key) {
                     self.emit(push(w));
                 }
                 self.emit(VRFYED);
@@ -825,10 +825,10 @@ impl<'a> Gen<'a> {
                     3 => sig = [0xff; 64],
                     _ => {}
                 }
-                for w in essential_types::convert::word_4_from_u8_32(hash) {
+                for w in crate::model::word_4_from_u8_32(hash) {
                     self.emit(push(w));
                 }
-                for w in essential_types::convert::word_8_from_u8_64(sig) {
+                for w in crate::model::word_8_from_u8_64(sig) {
                     self.emit(push(w));
                 }
                 self.emit(push(id));
